@@ -293,6 +293,13 @@ fn one_inner(rep: &mut Reporter, seed: u64, thorough: bool, checks: bool) -> Opt
         };
         rep.eval();
         rep.count("changes-written");
+        if std::env::var("VERIF_DEBUG").is_ok() {
+            eprintln!("== op {idx} actor {actor} parents={:?} in-history={} ts={} {}", case.ops[idx].parents, cur_snap.entries.contains(&oid), case.ops[idx].ts, serde_json::to_string(&case.ops[idx].actions).unwrap());
+            eprintln!("   current={} order={:?}", &cur.current.to_string()[..7], cur_snap.order.iter().map(|o| case.ops.iter().position(|x| x.oid == *o)).collect::<Vec<_>>());
+            for r in cur.revisions() {
+                eprintln!("   rev {} parent={:?} state={} verdicts={:?}", &r.id.to_string()[..7], r.parent.map(|p| p.to_string()[..7].to_string()), r.state, r.verdicts().map(|(k, v)| (w.actors.iter().position(|a| a.public_key() == k), matches!(v, Verdict::Accept(_)))).collect::<Vec<_>>());
+            }
+        }
         if cur_snap.entries.contains(&oid) {
             rep.count("changes-accepted-into-history");
         } else {
@@ -346,8 +353,34 @@ fn one_inner(rep: &mut Reporter, seed: u64, thorough: bool, checks: bool) -> Opt
                 return None;
             }
         }
-        // accepted revisions are never edited or redacted (change applied last => exact attribution)
-        if checks && applied_last {
+        // accepted revisions are never edited or redacted. The comparison with the previous evaluation is
+        // only an exact attribution to this change when the new evaluation applies exactly the changes
+        // the previous one applied, in the same order, and then this one: a change that is ordered
+        // *before* a concurrent branch and makes that branch invalid (so that the branch is pruned and
+        // the change ends up last) gives a different, equally legal, evaluation of a different history.
+        let dedup = |t: &Value| -> Vec<String> {
+            let mut out: Vec<String> = vec![];
+            for v in t.as_array().map(|a| a.as_slice()).unwrap_or(&[]) {
+                let s = v.as_str().unwrap_or("").to_string();
+                if out.last() != Some(&s) {
+                    out.push(s);
+                }
+            }
+            out
+        };
+        let extends = {
+            let mut p = dedup(&prev_snap.state["timeline"]);
+            let c = dedup(&cur_snap.state["timeline"]);
+            if cur_snap.entries.contains(&oid) {
+                p.push(oid.to_string());
+            }
+            p == c
+        };
+        if checks && applied_last && !extends {
+            rep.count("checked.accepted-revisions.skipped-evaluation-does-not-extend-previous");
+        }
+        if checks && applied_last && extends {
+            rep.count("checked.accepted-revisions-unchanged-by-last-change");
             for r in prev.revisions().filter(|r| r.is_accepted()) {
                 match cur.revision(&r.id) {
                     None => {
